@@ -18,6 +18,7 @@ import Pdpy11.Driver.Layout
 import Pdpy11.Driver.Shunt
 import Pdpy11.Driver.Poly
 import Pdpy11.Driver.Thunk
+import Pdpy11.Driver.Path
 namespace Pdpy11.Driver
 
 def handle (line : String) : String :=
@@ -52,8 +53,11 @@ def handle (line : String) : String :=
     | "defs" => handleDefs args
     | "layout" => handleLayout args
     | "shunt" => handleShunt args
+    | "shuntp" => handleShuntP args
     | "poly" => handlePoly args
     | "thunk" => handleThunk args
+    | "respath" => handleResPath args
+    | "tapename" => handleTapeName args
     | "ping" => "pong"
     | _ => "bad-op"
 
